@@ -381,7 +381,7 @@ func (c *RemoteClient) Query(dbOID uint32, table *TableInfo, opts *QueryOptions)
 	for i, a := range attrs {
 		cols[i] = Column{Name: a.Name, TypID: a.TypID, Len: a.Len, Num: a.Num, Align: a.Align}
 	}
-	rows := ReadRows(data, cols, true)
+	rows := readTableRows(data, cols)
 	if opts != nil && len(opts.Columns) > 0 {
 		filtered := make([]map[string]any, 0, len(rows))
 		for _, row := range rows {
